@@ -268,28 +268,37 @@ func kindGuardedCall(x *Ctx, it Item) {
 		if !ok {
 			return true
 		}
-		for i := len(stack) - 2; i >= 0; i-- {
-			is, ok := stack[i].(*ast.IfStmt)
-			if !ok {
-				continue
-			}
-			// the call must be in the then-branch
-			inBody := false
-			for j := i + 1; j < len(stack); j++ {
-				if stack[j] == ast.Node(is.Body) {
-					inBody = true
+		ok = false
+		for i := len(stack) - 2; i >= 0 && !ok; i-- {
+			switch nd := stack[i].(type) {
+			case *ast.IfStmt:
+				// the call must be in the then-branch of `if <arg is positive> { ... }`
+				inBody := false
+				for j := i + 1; j < len(stack); j++ {
+					if stack[j] == ast.Node(nd.Body) {
+						inBody = true
+					}
+				}
+				if inBody && condSaysPositive(nd.Cond, arg.Name) {
+					ok = true
+				}
+			case *ast.BlockStmt:
+				// or an earlier statement of an enclosing block leaves when the argument is not positive:
+				// `if <arg is not positive> { ...; return ... }`
+				for _, st := range nd.List {
+					if i+1 < len(stack) && ast.Node(st) == stack[i+1] {
+						break
+					}
+					if is, isIf := st.(*ast.IfStmt); isIf && is.Else == nil && len(is.Body.List) > 0 && condSaysNotPositive(is.Cond, arg.Name) {
+						if _, isRet := is.Body.List[len(is.Body.List)-1].(*ast.ReturnStmt); isRet {
+							ok = true
+						}
+					}
 				}
 			}
-			be, ok := is.Cond.(*ast.BinaryExpr)
-			if !inBody || !ok || be.Op != token.GTR {
-				continue
-			}
-			l, ok1 := be.X.(*ast.Ident)
-			r, ok2 := be.Y.(*ast.BasicLit)
-			if ok1 && ok2 && l.Name == arg.Name && r.Value == "0" {
-				guarded++
-				break
-			}
+		}
+		if ok {
+			guarded++
 		}
 		return true
 	})
@@ -488,4 +497,66 @@ func kindTimerCtxCheck(x *Ctx, it Item) {
 		v = "true"
 	}
 	x.Printf("(* %s: the `case <-%s.C:` clause re-checks %s.Err() *)\nDefinition %s : bool := %s.\n\n", what, timer, ctxName, coqName(it), v)
+}
+
+func isIdent(e ast.Expr, name string) bool {
+	if p, ok := e.(*ast.ParenExpr); ok {
+		return isIdent(p.X, name)
+	}
+	id, ok := e.(*ast.Ident)
+	return ok && id.Name == name
+}
+
+func isLit(e ast.Expr, v string) bool {
+	if p, ok := e.(*ast.ParenExpr); ok {
+		return isLit(p.X, v)
+	}
+	l, ok := e.(*ast.BasicLit)
+	return ok && l.Value == v
+}
+
+// condSaysPositive: the condition implies name > 0 (name > 0, name >= 1, 0 < name, 1 <= name,
+// or a conjunction with such a conjunct)
+func condSaysPositive(e ast.Expr, name string) bool {
+	switch x := e.(type) {
+	case *ast.ParenExpr:
+		return condSaysPositive(x.X, name)
+	case *ast.BinaryExpr:
+		switch x.Op {
+		case token.LAND:
+			return condSaysPositive(x.X, name) || condSaysPositive(x.Y, name)
+		case token.GTR:
+			return isIdent(x.X, name) && isLit(x.Y, "0")
+		case token.GEQ:
+			return isIdent(x.X, name) && isLit(x.Y, "1")
+		case token.LSS:
+			return isLit(x.X, "0") && isIdent(x.Y, name)
+		case token.LEQ:
+			return isLit(x.X, "1") && isIdent(x.Y, name)
+		}
+	}
+	return false
+}
+
+// condSaysNotPositive: the condition is implied by name <= 0 (name <= 0, name < 1, 0 >= name,
+// 1 > name, or a disjunction with such a disjunct)
+func condSaysNotPositive(e ast.Expr, name string) bool {
+	switch x := e.(type) {
+	case *ast.ParenExpr:
+		return condSaysNotPositive(x.X, name)
+	case *ast.BinaryExpr:
+		switch x.Op {
+		case token.LOR:
+			return condSaysNotPositive(x.X, name) || condSaysNotPositive(x.Y, name)
+		case token.LEQ:
+			return isIdent(x.X, name) && isLit(x.Y, "0")
+		case token.LSS:
+			return isIdent(x.X, name) && isLit(x.Y, "1")
+		case token.GEQ:
+			return isLit(x.X, "0") && isIdent(x.Y, name)
+		case token.GTR:
+			return isLit(x.X, "1") && isIdent(x.Y, name)
+		}
+	}
+	return false
 }
